@@ -897,6 +897,12 @@ func runC17(c *run.Ctx) {
 			for _, t := range ms.Types {
 				names = append(names, t.Name)
 			}
+			if k%2 == 1 && len(ms.Types) > 0 {
+				// names that are no type's name although they look like one: the word the Go API uses for the root object, and
+				// the printed forms of wrapped types (what `type { name }` shows in this library): __type answers null
+				tn := ms.Types[r.Intn(len(ms.Types))].Name
+				names = append(names, "schema", "Schema", "query", tn+"!", "["+tn+"]", "["+tn+"!]!", "Int!", "[[Int]]", "[String!]", " "+tn, tn+" ")
+			}
 			for _, l := range dc.Doc.AllSelLists() {
 				for _, s := range *l {
 					if f, isF := s.(*model.Field); isF && f.Name == "__type" {
